@@ -19,6 +19,13 @@ type Plan struct {
 	Tier  string `json:"tier,omitempty"`
 	Cfg   Config `json:"cfg"`
 	Tasks []Task `json:"tasks"`
+	// Prefix lists the seeds of earlier runs (same property and tier) that
+	// must be executed in the same process before this plan for the
+	// violation to show: the code under test then keeps state across
+	// calls somewhere other than in the pooled printers (a package-level
+	// memo, say), which is itself what C12 forbids. Empty for violations
+	// that reproduce from the plan alone.
+	Prefix []int64 `json:"prefix,omitempty"`
 	// Violation is filled in when the plan is written as a replay file.
 	Violation *Violation `json:"violation,omitempty"`
 }
